@@ -749,12 +749,13 @@ class Node:
         if not attr_node.is_mapping():
             return
 
-        new_value = list()
-        for key_node, value_node in attr_node.yaml_node.value:
+        for _, value_node in attr_node.yaml_node.value:
             if not isinstance(value_node, yaml.MappingNode):
                 raise SeasoningError(
                     'Values must be mappings for key "{}"'.format(attribute))
 
+        new_value = list()
+        for key_node, value_node in attr_node.yaml_node.value:
             # filter out key atttribute
             value_node.value = [
                     (k, v) for k, v in value_node.value
